@@ -551,7 +551,7 @@ class LSEMGaussianConditional(LConjugateFactorMGaussianConditional):
     def update_phi(self):
         """Set up the non-linear kernel function in :math:`\phi(x)`."""
         v = self.W
-        nu = self.W * self.w0[:, None]
+        nu = -self.W * self.w0[:, None]
         ln_beta = -0.5 * self.w0**2
         self.k_func = factor.OneRankFactor(v=v, nu=nu, ln_beta=ln_beta)
 
